@@ -420,6 +420,14 @@ def r2_raw_writers_bounded(ck, P, rows=True):
                 if params and not f.exported and (f.unit.name, f.name) not in routines:
                     for k in params:
                         oblig.setdefault(f, {})[k] = 'row address %s in %s' % (x.loc(), f.name)
+                    # the row pointer is advanced in a loop: the parameters that terminate that loop bound the last row touched
+                    for y2 in f.insts():
+                        if y2.op == 'icmp' and y2.pred in ('eq', 'ne', 'sge', 'sgt', 'sle', 'slt'):
+                            sides = [f.strip_casts(q) for q in y2.a]
+                            for i in (0, 1):
+                                ph = f.v(sides[i])
+                                if ph is not None and ph.op == 'phi' and sides[1 - i][0] == 'a' and f.params[sides[1 - i][1]][1] == 'i32' and (ph.dt or '').startswith('pixman_fixed'):
+                                    oblig.setdefault(f, {}).setdefault(sides[1 - i][1], 'row loop bound %s in %s' % (y2.loc(), f.name))
     changed = True; reported = set()
     callers = P.callers()
     at = common.address_taken_functions(P)
@@ -431,11 +439,7 @@ def r2_raw_writers_bounded(ck, P, rows=True):
                     for c in g.calls(f.name):
                         if k >= len(c.a):
                             continue
-                        ats = g.atoms(c.a[k])
-                        for br, succ in g.control_conditions(c.bb.id):
-                            if br.a:
-                                ats |= g.atoms(br.a[0])
-                        if ('field', 'bits_image.height') in ats:
+                        if _bounded_by_height(g, c, c.a[k]):
                             ck.ok(R, '%s bounds the row passed to %s by bits.height' % (g.name, f.name))
                             continue
                         ps = {a[1] for a in g.atoms(c.a[k]) if a[0] == 'arg'}
@@ -444,7 +448,64 @@ def r2_raw_writers_bounded(ck, P, rows=True):
                             if key not in reported:
                                 reported.add(key)
                                 ck.violation(R, g.name, 'row from caller into ' + f.name, 'exported %s forms a row address from its parameter %s without consulting bits.height (%s): rows above or below the image are written' % (g.name, [g.params[p][0] for p in ps], origin), c.loc())
-                        else:
-                            for p in ps:
-                                if p not in oblig.setdefault(g, {}):
-                                    oblig[g][p] = origin; changed = True
+                        # library callers of g (exported or not) inherit the obligation for the parameters involved
+                        for p in ps:
+                            if p not in oblig.setdefault(g, {}):
+                                oblig[g][p] = origin; changed = True
+
+
+
+def _bounded_by_height(g, call, o):
+    """is the row value o passed at `call` clamped against bits.height?  Either it is (a rounding of) a clamp phi whose selecting
+    comparison tests the phi's own unclamped incoming value against bits.height, with nothing but constants added after the clamp,
+    or the call is guarded by a comparison of that same value with bits.height."""
+    # walk back through casts, rounding helper calls (first argument) and +-constant
+    chain = []
+    cur = o
+    for _ in range(12):
+        x = g.v(g.strip_casts(cur))
+        if x is None:
+            break
+        chain.append(x)
+        if x.op == 'phi':
+            break
+        if x.op == 'call' and x.a:
+            cur = x.a[0]; continue
+        if x.op in ('add', 'sub') and any(q[0] == 'c' for q in x.a):
+            cur = [q for q in x.a if q[0] != 'c'][0]; continue
+        if x.op in ('add', 'sub', 'mul', 'shl'):
+            return False        # a run-time quantity is added after any clamp: the clamp (if any) no longer bounds the row
+        break
+    base = chain[-1] if chain else None
+    if base is not None and base.op == 'phi' and len(base.a) == 2:
+        for i in (0, 1):
+            clamp, raw = base.a[i], base.a[1 - i]
+            if ('field', 'bits_image.height') not in g.atoms(clamp):
+                continue
+            src_bb = base.d['bb'][i]
+            for p in [src_bb] + g.blocks[src_bb].pred:
+                t = g.blocks[p].term
+                if t.op == 'br' and t.a:
+                    cc, pred, ops = g.cond(t.a[0])
+                    if cc is not None and cc.op == 'icmp' and ('field', 'bits_image.height') in g.atoms(t.a[0]):
+                        # the compared value is the raw incoming (possibly shifted to integer pixels)
+                        for q in ops:
+                            y = g.v(g.strip_casts(q))
+                            if y is not None and y.op in ('ashr', 'lshr', 'sdiv'):
+                                q = y.a[0]
+                            if g.strip_casts(q) == g.strip_casts(raw):
+                                return True
+    # guarded by a comparison of the same value
+    vals = {tuple(g.strip_casts(['v', x.i])) for x in chain} | {tuple(g.strip_casts(o))}
+    for br, succ in g.guard_edges(call.bb.id):
+        if not br.a:
+            continue
+        cc, pred, ops = g.cond(br.a[0])
+        if cc is not None and cc.op == 'icmp' and ('field', 'bits_image.height') in g.atoms(br.a[0]):
+            for q in ops:
+                y = g.v(g.strip_casts(q))
+                if y is not None and y.op in ('ashr', 'lshr', 'sdiv'):
+                    q = y.a[0]
+                if tuple(g.strip_casts(q)) in vals:
+                    return True
+    return False
